@@ -86,6 +86,22 @@ def gen_pair(rng, idx):
         return '\n'.join(lines)
 
     enabled = [(n, [c for c, cc, _ in cs if cc is None or cc[1]]) for n, ac, _, cs in archs if ac is None or ac[1]]
+
+    def rule(items):
+        """the enum-discriminant rule: explicit value, otherwise previous + 1, otherwise 0"""
+        out, last = [], None
+        for x in items:
+            v = x if x is not None else (0 if last is None else last + 1)
+            out.append(v)
+            last = v
+        return out
+    en_full = [(n, i, [(c, ci) for c, cc, ci in cs if cc is None or cc[1]]) for n, ac, i, cs in archs if ac is None or ac[1]]
+    expected = {}
+    for (n, _, cs), aid in zip(en_full, rule([i for _, i, _ in en_full])):
+        expected['id %s' % n] = aid
+        for (c, _), cid in zip(cs, rule([ci for _, ci in cs])):
+            expected['cid %s C%d' % (n, c)] = cid
+            expected['qcid %s C%d' % (n, c)] = cid
     qp = rng.choice(pool)
     qcomp = rng.choice(enabled)[1][0]
     other = rng.randrange(NCOMP)
@@ -98,6 +114,9 @@ def gen_pair(rng, idx):
             for c in cs:
                 L.append('        out.push(("cid %s C%d".to_string(), ecs_component_id!(C%d, %s) as i64));' % (n, c, c, n))
             L.append('        for k in 0..%d { world.create::<%s>((%s,)); }' % (2 + len(cs), n, ', '.join('C%d(k)' % c for c in cs)))
+            for c in cs:
+                # the form used inside a query body
+                L.append('        { let mut id = -1i64; ecs_iter!(world, |_e: &Entity<%s>, _x: &C%d| { id = ecs_component_id!(C%d) as i64; }); out.push(("qcid %s C%d".to_string(), id)); }' % (n, c, c, n, c))
         for c in range(NCOMP):
             if any(c in cs for _, cs in enabled):
                 L.append('        { let mut n = 0i64; ecs_iter!(world, |_x: &C%d| { n += 1; }); out.push(("iter C%d".to_string(), n)); }' % (c, c))
@@ -125,12 +144,13 @@ def gen_pair(rng, idx):
         src += ['fn main() {', '    for (k, v) in w::report().iter() { println!("{} {}", k, v); }', '}']
         return '\n'.join(src) + '\n'
     src = (prog(True), prog(False))
+    desc_expected = expected
     desc = 'predicates %s' % ', '.join('%s=%s' % (p, 'true' if t else 'false') for p, t in pool)
-    return src, desc
+    return src, desc, desc_expected
 
 
 def run(repo, cache, seed, n=10):
-    out = dict(error=None, pairs=0, violations=[], sample=None)
+    out = dict(error=None, pairs=0, violations=[], rule_violations=[], rule_checked=0, sample=None)
     rng = random.Random(seed * 7919 + 16)
     d = os.path.join(cache, 'work', 'cfg_probe')
     os.makedirs(os.path.join(d, 'src', 'bin'), exist_ok=True)
@@ -145,11 +165,11 @@ def run(repo, cache, seed, n=10):
         g = gen_pair(rng, len(pairs))
         if g is None:
             continue
-        (sd, sp), desc = g
+        (sd, sp), desc, exp = g
         name = 'p%d' % len(pairs)
         open(os.path.join(d, 'src', 'bin', name + '_deco.rs'), 'w').write(sd)
         open(os.path.join(d, 'src', 'bin', name + '_plain.rs'), 'w').write(sp)
-        pairs.append((name, sd, sp, desc))
+        pairs.append((name, sd, sp, desc, exp))
     env = dict(os.environ, CARGO_NET_OFFLINE='true')
     tdir = os.path.join(cache, 'target-cfgprobe')
     r = subprocess.run('cargo build --offline --target-dir %s' % tdir, shell=True, cwd=d, capture_output=True, text=True, env=env)
@@ -167,7 +187,7 @@ def run(repo, cache, seed, n=10):
         return True, rr.stdout
 
     skipped = 0
-    for name, sd, sp, desc in pairs:
+    for name, sd, sp, desc, exp in pairs:
         try:
             okp, outp = build_run(name + '_plain')
             if not okp:
@@ -180,6 +200,16 @@ def run(repo, cache, seed, n=10):
         out['pairs'] += 1
         if out['sample'] is None and okd:
             out['sample'] = dict(pair=name, description=desc, decorated=outd.split('\n')[:8], erased=outp.split('\n')[:8])
+        # C15 end to end: the emitted constants are the discriminant rule's (checked on the erased, attribute-free-but-for-ids twin)
+        got = {}
+        for line in outp.split('\n'):
+            f = line.rsplit(' ', 1)
+            if len(f) == 2 and f[0] in exp:
+                got[f[0]] = int(f[1])
+        wrong = [(k, exp[k], got.get(k)) for k in exp if got.get(k) != exp[k]]
+        if wrong:
+            out['rule_violations'].append(dict(pair=name, what='emitted ids differ from the discriminant rule (item, rule, emitted): %s' % wrong[:4], description=desc, program=sp))
+        out['rule_checked'] += len(exp)
         if not okd:
             out['violations'].append(dict(pair=name, what='the erased declaration compiles, the decorated one does not: ' + outd, description=desc, program=sd, erased=sp))
         elif outd != outp:
